@@ -3,6 +3,7 @@ package main
 // C06 — every stored signature is valid for the message as it currently stands.
 
 import (
+	"sort"
 	"go/token"
 	"strings"
 
@@ -193,6 +194,29 @@ func rulesC06(w *World, o *Out) {
 			}
 			o.Check("C06.R1", "ConfirmBatch|stored only after the signature check", ok1, w.Pos(s.Instr.Pos()), "SetBatchConfirm must be dominated by confirmHandlerCommon == nil")
 			o.Check("C06.R1", "ConfirmBatch|at most one confirmation per validator", ok2, w.Pos(s.Instr.Pos()), "SetBatchConfirm must be dominated by GetBatchConfirm(...) == nil")
+		}
+		// the validator whose registered key verifies the signature is the validator the confirmation is stored for
+		// (SetBatchConfirm keys by msg.Orchestrator)
+		req := cb.Params[len(cb.Params)-1]
+		for _, ch := range FindCalls(cb, false, isCallee(skw, "msgServer", "confirmHandlerCommon")) {
+			args := ch.Args()
+			okO := false
+			var other []string
+			if len(args) >= 4 {
+				x, _ := NewFlow(w).Influence(args[len(args)-4])
+				for ap := range x {
+					if ap.Root != ssa.Value(req) {
+						continue
+					}
+					if ap.Path == ".Orchestrator" {
+						okO = true
+					} else {
+						other = append(other, ap.Path)
+					}
+				}
+			}
+			sort.Strings(other)
+			o.Check("C06.R1", "ConfirmBatch|the key checked is that of the validator the confirmation is stored for", okO && len(other) == 0, w.Pos(ch.Instr.Pos()), "confirmHandlerCommon must be given msg.Orchestrator, the identity SetBatchConfirm and GetBatchConfirm key by; verifying against another account's key ("+strings.Join(other, ",")+") records a confirmation for a validator whose key did not sign")
 		}
 		// GetBatchConfirm and SetBatchConfirm address the same key
 		gbc := w.Func(skw, "Keeper", "GetBatchConfirm")
